@@ -48,7 +48,12 @@ def wire_law(tag, wire_proc, entries, delivered_log, stubs, loss_rate, has_loss)
                 else:
                     check(tag + '.loss-rule', le(u, loss_rate), 'lost although u > p')
                     cover('lost')
-    check(tag + '.one-delay-draw-per-survivor', len(delays) == len(surv))
+    # the delay may be drawn only for surviving packets (j-th draw = j-th survivor) or for every packet that enters
+    # (k-th draw = k-th packet): both conventions implement the same law
+    if len(delays) == len(entries) and len(entries) != len(surv):
+        delays = [d for (p, a), d in zip(entries, delays) if id(p) in ids]
+        cover('delay-drawn-for-lost-packets-too')
+    check(tag + '.one-delay-draw-per-packet', len(delays) == len(surv), (len(delays), len(surv), len(entries)))
     if len(delays) == len(surv) and [id(p) for p, _ in surv] == ids:
         prev = None
         for (p, a), d, (_, t) in zip(surv, delays, delivered_log):
